@@ -597,3 +597,34 @@ def to_ratf(poly, reg, depth=0):
                 term = term * (RatF(P_atom(atom, e)) if e > 0 else RatF(P_const(1), P_atom(atom, -e)))
         total = total + term
     return total
+
+
+def P_eval(poly, amap):
+    """evaluate a polynomial with (some) atoms replaced by rational functions: amap(atom) -> RatF or None"""
+    total = RatF({})
+    for m, c in poly.items():
+        term = RatF(P_const(c))
+        for atom, e in m:
+            if e.denominator != 1:
+                raise RuntimeError('fractional exponent on %r' % (atom,))
+            e = int(e)
+            r = amap(atom)
+            if r is None:
+                r = RatF(P_atom(atom))
+            term = term * r.pow(e)
+        total = total + term
+    return total
+
+
+def R_eval(r, amap):
+    return P_eval(r.n, amap) / P_eval(r.d, amap)
+
+
+def R_atoms(r, kind):
+    out = set()
+    for poly in (r.n, r.d):
+        for m in poly:
+            for atom, e in m:
+                if isinstance(atom, tuple) and atom and atom[0] == kind:
+                    out.add(atom)
+    return out
